@@ -55,6 +55,8 @@ def check_node(schema, ns, node, rng, ncases, rec, label, entries, bulk):
         suffixes += rng.sample(VALUES, 2)
     else:
         suffixes += rng.sample(EXTS, 1 if ncases < 4 else 2)
+    # the same suffix again in another letter case: a value/extension must come back exactly as written each time
+    suffixes += [x.swapcase() for x in suffixes[1:2] if x.swapcase() != x]
     for spelled0 in node.suffix_paths():
         for spelled in _case_variants(rng, spelled0, ncases):
             for suffix in suffixes:
